@@ -534,13 +534,38 @@ def translate_reader(cx, clsname, root=''):
 
 
 # ------------------------------------------------------------------------------------------
+def _name_steps(stmts, fname, where, what):
+    """statements that turn the caller's file name into the name of the file: nothing, or exactly
+    `if not <name>.endswith(S): <name> += S`  ->  ('id',) | ('ensure_suffix', S)"""
+    if not stmts:
+        return ('id',)
+    if len(stmts) == 1 and isinstance(stmts[0], ast.If) and not stmts[0].orelse and len(stmts[0].body) == 1:
+        t, b = stmts[0].test, stmts[0].body[0]
+        ok = (isinstance(t, ast.UnaryOp) and isinstance(t.op, ast.Not) and isinstance(t.operand, ast.Call)
+              and isinstance(t.operand.func, ast.Attribute) and t.operand.func.attr == 'endswith'
+              and isinstance(t.operand.func.value, ast.Name) and t.operand.func.value.id == fname
+              and len(t.operand.args) == 1 and not t.operand.keywords and _str_const(t.operand.args[0]) is not None
+              and isinstance(b, ast.AugAssign) and isinstance(b.op, ast.Add) and isinstance(b.target, ast.Name) and b.target.id == fname
+              and _str_const(b.value) == _str_const(t.operand.args[0]))
+        if ok:
+            return ('ensure_suffix', t.operand.args[0].value)
+    raise TranslationError('%s: the file name is computed in a way the translator does not know '
+                           '(accepted: the name as given, or `if not name.endswith(S): name += S`)' % what, stmts[0], where)
+
+
 def generic_wiring(cx):
-    """GenericModel.save stores exactly self.toDict(); load passes the file's dictionary to fromDict"""
+    """GenericModel.save stores exactly self.toDict() in the file named by a translated function of the
+    caller's name; load reads the file named by a translated function of the caller's name and passes its
+    dictionary to fromDict"""
     where = cx.files['GenericModel']
     c = cx.cls('GenericModel')
     sv, ld = _method(c, 'save', where), _method(c, 'load', where)
     info = {}
+    for fn in (sv, ld):
+        if len(fn.args.args) != 2 or fn.args.vararg or fn.args.kwarg or fn.args.kwonlyargs or fn.args.defaults:
+            raise TranslationError('GenericModel.%s: expected the parameters (self, filename)' % fn.name, fn, where)
     b = _body(sv)
+    fname = sv.args.args[1].arg
     ok = (len(b) >= 2 and isinstance(b[0], ast.Assign) and isinstance(b[0].targets[0], ast.Name)
           and isinstance(b[0].value, ast.Call) and _is_self_attr(b[0].value.func, 'toDict') and not b[0].value.args)
     if not ok:
@@ -548,16 +573,19 @@ def generic_wiring(cx):
     dn = b[0].targets[0].id
     last = b[-1]
     ok = (isinstance(last, ast.Expr) and isinstance(last.value, ast.Call) and isinstance(last.value.func, ast.Attribute)
-          and last.value.func.attr in ('savez_compressed', 'savez') and len(last.value.args) == 1
+          and last.value.func.attr in ('savez_compressed', 'savez') and isinstance(last.value.func.value, ast.Name) and last.value.func.value.id == 'np'
+          and len(last.value.args) == 1 and isinstance(last.value.args[0], ast.Name) and last.value.args[0].id == fname
           and len(last.value.keywords) == 1 and last.value.keywords[0].arg is None
           and isinstance(last.value.keywords[0].value, ast.Name) and last.value.keywords[0].value.id == dn)
     if not ok:
-        raise TranslationError('GenericModel.save does not end with np.savez*(filename, **data)', last, where)
+        raise TranslationError('GenericModel.save does not end with np.savez*(%s, **data)' % fname, last, where)
     for st in b[1:-1]:
         if any(isinstance(n, ast.Name) and n.id == dn for n in ast.walk(st)):
             raise TranslationError('GenericModel.save modifies the dictionary before writing it', st, where)
+    info['save_name'] = _name_steps(b[1:-1], fname, where, 'GenericModel.save')
     info['writer'] = last.value.func.attr
     b = _body(ld)
+    fname = ld.args.args[1].arg
     last = b[-1]
     ok = (isinstance(last, ast.Expr) and isinstance(last.value, ast.Call) and _is_self_attr(last.value.func, 'fromDict')
           and len(last.value.args) == 1 and isinstance(last.value.args[0], ast.Call)
@@ -566,11 +594,16 @@ def generic_wiring(cx):
     if not ok:
         raise TranslationError('GenericModel.load does not end with `self.fromDict(dict(data))`', last, where)
     dn = last.value.args[0].args[0].id
-    src = [st for st in b if isinstance(st, ast.Assign) and isinstance(st.targets[0], ast.Name) and st.targets[0].id == dn]
-    ok = (len(src) == 1 and isinstance(src[0].value, ast.Call) and isinstance(src[0].value.func, ast.Attribute)
-          and src[0].value.func.attr == 'load' and isinstance(src[0].value.func.value, ast.Name) and src[0].value.func.value.id == 'np')
+    if len(b) < 2:
+        raise TranslationError('GenericModel.load does not read a file', ld, where)
+    rd = b[-2]
+    ok = (isinstance(rd, ast.Assign) and len(rd.targets) == 1 and isinstance(rd.targets[0], ast.Name) and rd.targets[0].id == dn
+          and isinstance(rd.value, ast.Call) and isinstance(rd.value.func, ast.Attribute) and rd.value.func.attr == 'load'
+          and isinstance(rd.value.func.value, ast.Name) and rd.value.func.value.id == 'np'
+          and len(rd.value.args) == 1 and isinstance(rd.value.args[0], ast.Name) and rd.value.args[0].id == fname and not rd.value.keywords)
     if not ok:
-        raise TranslationError('GenericModel.load does not read the dictionary with np.load', ld, where)
+        raise TranslationError('GenericModel.load does not read the dictionary with `data = np.load(%s)` just before fromDict' % fname, rd, where)
+    info['load_name'] = _name_steps(b[:-2], fname, where, 'GenericModel.load')
     info['reader'] = 'np.load'
     return info
 
@@ -771,7 +804,11 @@ def _deflist(name, ty, items):
     return 'Definition %s : list %s :=\n  [ %s ].\n' % (name, ty, ';\n    '.join(items))
 
 
-def render_saveload(models):
+def render_namefn(n):
+    return 'NameId' if n[0] == 'id' else 'NameEnsureSuffix %s' % _s(n[1])
+
+
+def render_saveload(models, wiring=None):
     t = ['(* GENERATED by harness/c20_translate.py from the current kawin sources - do not edit *)',
          'From Coq Require Import String List.', 'Require Import Kawin.C20.Model.', 'Import ListNotations.', 'Open Scope string_scope.', '']
     for name, m in models.items():
@@ -779,7 +816,10 @@ def render_saveload(models):
         t.append(_deflist('gen_%s_wp' % name, 'wentry', [render_w(e) for e in m['wp']]))
         t.append(_deflist('gen_%s_rg' % name, 'raction', [render_r(a) for a in m['rg']]))
         t.append(_deflist('gen_%s_rp' % name, 'raction', [render_r(a) for a in m['rp']]))
-    return '\n'.join(t)
+    if wiring is not None:
+        t.append('Definition gen_save_name : namefn := %s.' % render_namefn(wiring['save_name']))
+        t.append('Definition gen_load_name : namefn := %s.' % render_namefn(wiring['load_name']))
+    return '\n'.join(t) + '\n'
 
 
 def render_surrogate(entries, rbf):
@@ -815,14 +855,14 @@ def translate(repo):
     wiring = generic_wiring(cx)
     attrs = cx.attributes_const('PrecipitationData', 'ATTRIBUTES')
     ft, sha_s, rbf = translate_surrogate(repo)
-    texts = {'SaveLoad_gen.v': render_saveload(models), 'Surrogate_gen.v': render_surrogate(ft, rbf)}
+    texts = {'SaveLoad_gen.v': render_saveload(models, wiring), 'Surrogate_gen.v': render_surrogate(ft, rbf)}
     h = hashlib.sha256()
     for k in sorted(texts):
         h.update(texts[k].encode())
     info = {'sha256': h.hexdigest(), 'wiring': wiring, 'ATTRIBUTES': attrs,
             'entries': {k: {kk: len(vv) for kk, vv in m.items()} for k, m in models.items()},
             'fallthrough': [(e['cls'], e['method'], e['callee'], e['models']) for e in ft], 'rbf_normalisation': list(rbf)}
-    return texts, {'models': models, 'fallthrough': ft, 'ATTRIBUTES': attrs}, info
+    return texts, {'models': models, 'fallthrough': ft, 'ATTRIBUTES': attrs, 'wiring': wiring}, info
 
 
 if __name__ == '__main__':
